@@ -45,6 +45,9 @@ TRUSTED = [
     "harness loop that drives step/cont (cross-checked on every case against the extracted complete greedy run on the recorded loss table)",
     "reuse / online: the only state a GreedySelector keeps between select() calls is its RandomState; the harness carries the same "
     "RandomState position from call to call (the model takes the draws as an input; C20_greedy_stateless: irrelevant without bagging)",
+    "EnsemblePredictor: every call asks about another X and the members echo it, so an output computed for an earlier call is recognised; "
+    "a failing member is reported by RuntimeError('Failed to call .predict...') (the documented behaviour); Model.run_calls with "
+    "close_on_failure = true is the code of /repo (gather all, close(), then raise)",
     "EnsemblePredictor: completion order is read from time.monotonic() stamps inside the members' predictions (also across the "
     "processes of the process backend); predict() is observed through a recording Aggregator",
     "EnsemblePredictor: the ensemble's evaluator numbers its jobs 0, 1, 2, ... in submission order and keeps counting across calls "
@@ -69,11 +72,12 @@ RULE = ("topk/greedy: 1..12 candidates, all option combinations, losses SquaredE
         "1e300 and 1e-300 sized, k = 0. reuse: one Greedy + one TopK selector object, 2-4 select() calls, RandomState carried over. "
         "online: one callback / selector object, job outputs overwritten and result lists emptied by the caller after each call, integer "
         "targets, on_done_other. predictor_order also: predict() through a recording aggregator with non-uniform weights, members as "
-        "loaders, the caller re-ordering ensemble.predictors between calls, default and process evaluators. "
+        "loaders, the caller re-ordering ensemble.predictors between calls, default and process evaluators; a member that raises at every position (finishing first / last), the call must raise "
+        "RuntimeError and the later calls (other X, other latencies, other member order) must return their own outputs. "
         "non-trivial = at least one greedy step accepted, "
         "or a tie among the candidate losses, or a completion order different from the submission order")
 
-F_OKORDER, F_TOPK, F_OKTOPK, F_INIT, F_CONT, F_STEP, F_FINAL, F_OKGREEDY, F_NOWORSE, F_RUN, F_BYID, F_OKMEMBERS, F_ARGSORT = range(2001, 2014)
+F_OKORDER, F_TOPK, F_OKTOPK, F_INIT, F_CONT, F_STEP, F_FINAL, F_OKGREEDY, F_NOWORSE, F_RUN, F_BYID, F_OKMEMBERS, F_ARGSORT, F_CALLS = range(2001, 2015)
 
 CAP = 60           # rounds after which the model-driven run is declared "out of fuel"
 WATCHDOG = 2.0     # CPU seconds for one implementation call (a terminating call of <= CAP rounds needs a few 10 ms)
@@ -713,19 +717,22 @@ def member_classes():
 
         class TaggedMember(Predictor):
             def __init__(self, tag):
-                self.tag, self.delay = tag, 0.0
+                self.tag, self.delay, self.fail = tag, 0.0, False
 
             def predict(self, X):
                 time.sleep(self.delay)
-                return np.array([float(self.tag), time.monotonic()])  # member-distinguishing prediction
+                if self.fail:
+                    raise ValueError("member %d fails" % self.tag)
+                # member-distinguishing and call-distinguishing prediction: [tag, finishing time, the X it was asked about]
+                return np.array([float(self.tag), time.monotonic(), float(np.asarray(X).reshape(-1)[0])])
 
         class TaggedLoader(PredictorLoader):
             def __init__(self, tag):
-                self.tag, self.delay = tag, 0.0
+                self.tag, self.delay, self.fail = tag, 0.0, False
 
             def load(self):
                 mb = TaggedMember(self.tag)
-                mb.delay = self.delay
+                mb.delay, mb.fail = self.delay, self.fail
                 return mb
 
         class SpyAggregator(Aggregator):
@@ -772,21 +779,38 @@ def check_predictor(case):
     weights = [float(i + 1) for i in range(n)]
     obs = observe_predictor_child(case) if backend == "process" else observe_predictor(case)
     permuted = 0
+    mcalls, seen = [], []  # the same history for Model.run_calls (close_on_failure = true: the code of /repo)
     for c, o in enumerate(obs["calls"]):
         current = o["current"]
+        base = c * n
         if o.get("note"):
             return dict(res, ok=False, clause="member_order", detail=dict(call=c, note=o["note"]))
+        if o["failing"] or o.get("raised"):
+            # a failing member: the call must raise RuntimeError - and must not disturb the calls that follow
+            if not o.get("raised"):
+                return dict(res, ok=False, clause="member_failure_not_reported", detail=dict(call=c, failing=o["failing"], returned=o.get("tags")))
+            if not o["failing"]:
+                return dict(res, ok=False, clause="spurious_failure", detail=dict(call=c))
+            mcalls.append([[100 * c + i for i in range(n)], True, n, [[base + i, 100 * c + i] for i in range(n)]])
+            seen.append([1, []])
+            res["desc"] = res["desc"] + ["failing_member_at=%s" % ("first" if 0 in [current.index(t) for t in o["failing"]] else "last" if n - 1 in [current.index(t) for t in o["failing"]] else "middle")]
+            continue
         if "wseen" in o and (o["wseen"] is None or [float(x) for x in o["wseen"]] != [weights[t] for t in current]):
             return dict(res, ok=False, clause="predict_weights", detail=dict(call=c, weights=o["wseen"], expected=[weights[t] for t in current]))
-        got = [current.index(t) if t in current else n for t in o["tags"]]  # positions in ens.predictors
+        stale = [x != float(c) for x in o["xs"]]  # an output computed for another call's X
+        got = [current.index(t) if (t in current and not st_) else n for t, st_ in zip(o["tags"], stale)]  # positions in ens.predictors
+        if len(got) != n or not m.call(F_OKMEMBERS, [n, got]):
+            return dict(res, ok=False, clause="stale_outputs_of_earlier_call" if any(stale) else "member_order",
+                        detail=dict(call=c, job_numbers=[base, base + n - 1], returned_tags=o["tags"], returned_for_X=o["xs"], members=current))
         completion = [g for _, g in sorted(zip(o["fin"], got))]  # positions in the order in which the members finished
         permuted += completion != sorted(completion)
-        base = c * n
-        if len(got) != n or not m.call(F_OKMEMBERS, [n, got]):
-            return dict(res, ok=False, clause="member_order", detail=dict(call=c, job_numbers=[base, base + n - 1], returned=got, completion=completion))
         mod = m.call(F_BYID, [[base + i, i] for i in completion])
         if [p[1] for p in mod] != got:
             return dict(res, ok=False, kind="corr", clause="order_by_id", detail=dict(call=c, model=mod, impl=got, completion=completion))
+        mcalls.append([[100 * c + i for i in range(n)], False, n, [[base + i, 100 * c + i] for i in completion]])
+        seen.append([0, [100 * c + g for g in got]])
+    if mcalls and m.call(F_CALLS, [True, mcalls]) != seen:
+        return dict(res, ok=False, kind="corr", clause="call_sequence", detail=dict(model=m.call(F_CALLS, [True, mcalls]), impl=seen))
     if obs["status"] == "timeout":
         return dict(res, ok=False, clause="predictor_total", sig={"error": "nontermination"}, detail=obs["detail"])
     if obs["status"] != "ok":
@@ -825,10 +849,12 @@ def observe_predictor(case):
             current = [current[i] for i in perm]
             ens.predictors = [members[t] for t in current]
             ens.weights = [weights[t] for t in current]
+        failing = (case.get("fail") or {}).get(str(c)) or []
         for t, mb in enumerate(members):
             mb.delay = case["unit"] * ranks[t]
-        X = np.zeros((1, 1))
-        o = dict(current=list(current))
+            mb.fail = t in failing
+        X = np.full((1, 1), float(c))  # every call asks about another X
+        o = dict(current=list(current), failing=[t for t in failing if t in current])
         if case.get("via_predict"):
             spy.seen = None
             st, out = with_watchdog(lambda: ens.predict(X), seconds=limit, wall=True)
@@ -839,10 +865,14 @@ def observe_predictor(case):
                 out, o["wseen"] = spy.seen
         else:
             st, out = with_watchdog(lambda: ens.predictions_from_predictors(X, ens.predictors), seconds=limit, wall=True)
+        if st == "exc" and isinstance(out, RuntimeError) and "Failed to call .predict" in str(out):
+            out_calls.append(dict(o, raised="RuntimeError"))  # the documented way of reporting a failing member
+            continue
         if st != "ok":
             return dict(status=st, detail="call %d: %s" % (c, "no answer within %ds" % limit if st == "timeout" else repr(out)), calls=out_calls)
         o["tags"] = [int(np.asarray(a).reshape(-1)[0]) for a in out]
         o["fin"] = [float(np.asarray(a).reshape(-1)[1]) for a in out]
+        o["xs"] = [float(np.asarray(a).reshape(-1)[2]) for a in out]
         out_calls.append(o)
     return dict(status="ok", detail="", calls=out_calls)
 
@@ -1112,6 +1142,25 @@ def gen_predictor(maxn):
             if tier == "search" and backend == "process":
                 continue
             yield dict(calls=[perm(n) for _ in range(c)], unit=0.05 if backend == "process" else 0.004, evaluator=backend, via_predict=(n == 4 and backend != "process"))
+        # a member that raises, at every position, finishing before / after the others, followed by further calls on the same
+        # ensemble with another X, other latencies and (half of the time) another member order
+        k = 0
+        for n in ((2, 3, 4) if not th else (2, 3, 4, 5, 6, 12)):
+            for pos in (range(n) if n <= 6 else (0, 5, 11)):
+                for when in ("first", "last"):
+                    for backend in ("thread_n", "thread_default") + (("process",) if (th and n == 3) or (n == 3 and pos == 1 and when == "first") else ()):
+                        if tier == "search" and (backend == "process" or n > 3):
+                            continue
+                        k += 1
+                        calls = [perm(n) for _ in range(5)]
+                        r = [x for x in range(n) if x != pos]
+                        rng.shuffle(r)
+                        calls[1] = [0 if t == pos else 1 + r.index(t) for t in range(n)] if when == "first" else [n - 1 if t == pos else r.index(t) for t in range(n)]
+                        case = dict(calls=calls, unit=0.03 if backend == "process" else 0.006, evaluator=backend, via_predict=(k % 3 == 0), loader=(k % 4 == 0),
+                                    fail={"1": [pos], "3": sorted(rng.sample(range(n), rng.randint(1, n)))})
+                        if k % 2:
+                            case["reorder"] = {"2": perm(n), "4": perm(n)}
+                        yield case
         # larger ensembles, a few sampled latency orders, one or two calls
         for n in (11, 12, 13):
             orders = [list(range(n)), list(range(n))[::-1]] + [perm(n) for _ in range(4 if th else 1)]
